@@ -572,12 +572,15 @@ func (conn *Tunnel) process() error {
 // serve serves the tunnel connection. It can sustain certain failures. This method will try to
 // reconnect in case of a heartbeat failure or disconnect.
 func (conn *Tunnel) serve() {
+	// Close waits for this: it has to be the last thing that happens here, so that the channels
+	// below are closed by the time Close returns.
+	defer conn.wait.Done()
+
 	util.Log(conn, "Started worker")
 	defer util.Log(conn, "Worker exited")
 
 	defer close(conn.ack)
 	defer close(conn.inbound)
-	defer conn.wait.Done()
 
 	for {
 		err := conn.process()
